@@ -34,7 +34,7 @@ META = dict(
 )
 
 CONSTS = {
-    "quick": dict(check="Encodings.quick.cfg", gen="EncodingsGen.quick.cfg", stride=16, per_file=45000, par=8),
+    "quick": dict(check="Encodings.quick.cfg", gen="EncodingsGen.quick.cfg", stride=48, per_file=40000, par=8),
     "thorough": dict(check="Encodings.thorough.cfg", gen="EncodingsGen.thorough.cfg", stride=1, per_file=150000, par=12),
 }
 
